@@ -165,6 +165,15 @@ func C12(r *core.Run) int {
 						}
 						_ = os.WriteFile(filepath.Join(p.Out, f), []byte(content), 0o644)
 					}
+					if p.Idx%2 == 0 {
+						// ... and the (much longer) output of an earlier invocation: the bytes
+						// written are a function of this invocation, not of what was there
+						where = "cli-into-directory-with-foreign-files-and-longer-earlier-output"
+						stale := "package " + p.Pkg + "\n\n" + strings.Repeat("// left over from an earlier, longer generation\n", 4000)
+						for _, f := range c19Owned {
+							_ = os.WriteFile(filepath.Join(p.Out, f), []byte(stale), 0o644)
+						}
+					}
 				}
 				out, err := core.RunCmd(r.Scratch, time.Minute, nil, cli, p.CLIArgs()...)
 				if err != nil {
